@@ -294,8 +294,8 @@ def run_both(c, real_call, spec_call):
 def protected_unchanged(c, pf, P, pre_cash, snap0, keys, tag, props=('C15',)):
     """C15: cash, every holding (presence and all accounting fields incl. mark price) and the history are as before"""
     snap1 = P.snapshot()
-    c.ob(tag + 'cash-unchanged', EQ(pf.cash, pre_cash), props=list(props))
-    c.ob(tag + 'history-unchanged', len(pf.history) == 0, props=list(props))
+    c.ob(tag + 'cash-unchanged', EQ(pf.cash, pre_cash), props=sorted(set(props) | {'C01'}))
+    c.ob(tag + 'history-unchanged', len(pf.history) == 0, props=sorted(set(props) | {'C01'}))
     for nm, k in keys:
         c.ob(tag + 'holdings-unchanged(%s)' % nm, snap1.same_position(snap0, k, ACCT + ['current_price']), props=list(props))
 
@@ -490,6 +490,13 @@ class _ToDictLoop(heap.MapLoopSpec):
                  z3.Select(h.cols[f], k) == lift(fig[f]) if f in h.cols else z3.BoolVal(False)) for f in self.FIELDS]
 
 
+def _todict_kernel(self, L, env, k):
+    # the PCM (C09) reads holdings through this report: every held asset is listed with its net quantity
+    return [(n, f, {'props': ['C02', 'C01', 'C03', 'C09']} if n.startswith('holdings[quantity]') else {}) for n, f in self.pd(L, env, k)]
+
+
+_ToDictLoop.kernel = _todict_kernel
+
 _PNLF = {n: z3.Function('POSITION_' + n.upper(), *([R] * 7 + [R])) for n in ('unrealised_pnl', 'realised_pnl', 'total_pnl')}
 
 
@@ -520,7 +527,7 @@ def position_figures(region, k):
 TODICT_LOOP = 'Portfolio.portfolio_to_dict#for self.pos_handler.positions.items()#0'
 
 
-@harness('Portfolio.valuation', props=['C02', 'C01', 'C03'], layer='L1', functions=PF_FUNCS)
+@harness('Portfolio.valuation', props=['C02', 'C01', 'C03'], also=['C09'], layer='L1', functions=PF_FUNCS)
 def pf_values(c):
     """market value = SUM over held assets of quantity x latest price; equity = cash + market value; holdings report
        has exactly the held assets with their net quantity; the P&L totals are SUMs of the per-position figures"""
